@@ -57,6 +57,9 @@ def put_demo():
     for src, dst in spec.get("copy", []):
         os.makedirs(os.path.dirname(os.path.join(wt, dst)), exist_ok=True)
         shutil.copy(os.path.join(out, src), os.path.join(wt, dst))
+    for src, dst in spec.get("append", []):       # a #[cfg(test)] module appended to an existing source file
+        with open(os.path.join(wt, dst), "a") as f:
+            f.write("\n" + open(os.path.join(out, src)).read())
 
 
 put_demo()
@@ -67,8 +70,8 @@ rc1, o1 = sh(spec["cmd"])
 res["demo_changed_rc"] = rc1
 res["demo_changed_tail"] = o1[-600:]
 # suite with the change, without the demo
-for _, dst in spec.get("copy", []):
-    os.remove(os.path.join(wt, dst))
+clean()
+sh("git apply out/%s/patch.diff" % name)
 suite_ok = None
 if not spec.get("skip_suite"):
     rc2, o2 = sh("cargo test --workspace --no-fail-fast --offline -- --test-threads 6 2>&1 | grep -E '^test result|^test .* FAILED|^error: test failed|panicked' ")
@@ -95,8 +98,11 @@ if ok:
     d = "/verif/seeded/" + name
     os.makedirs(d, exist_ok=True)
     shutil.copy(os.path.join(out, "patch.diff"), d)
-    for src, _ in spec.get("copy", []):
+    for src, _ in spec.get("copy", []) + spec.get("append", []):
         shutil.copy(os.path.join(out, src), d)
+    for extra in spec.get("extra_files", []):
+        if os.path.exists(os.path.join(out, extra)):
+            shutil.copy(os.path.join(out, extra), d)
     for extra in ("demo_howto.txt",):
         if os.path.exists(os.path.join(out, extra)):
             shutil.copy(os.path.join(out, extra), d)
